@@ -17,9 +17,11 @@ import (
 func init() { sections["ryu"] = ryuSection }
 
 func genFloatForRyu(r *tx.Rng) uint64 {
-	switch r.Intn(10) {
+	switch r.Intn(12) {
 	case 0:
 		return floatBits[r.Intn(len(floatBits))]
+	case 10, 11: // exact powers of two over the whole exponent range (the lower neighbour is half as far away as the upper one)
+		return uint64(r.Intn(2))<<63 | uint64(1+r.Intn(2046))<<52
 	case 1: // exponent sweep with boundary mantissas
 		e := uint64(r.Intn(2047))
 		m := []uint64{0, 1, 2, 1<<52 - 1, 1<<52 - 2, 1 << 51, 1<<51 + 1, 1<<51 - 1}[r.Intn(8)]
